@@ -156,12 +156,14 @@ TTwin == IsEvent("Twin") /\ LET e == Log[l] IN
             /\ UNCHANGED <<obj, blob, cst, stat>>
 \* an image in one of the two formats of the reference implementation (read-only input); src = its content
 \* decoded by the harness from the documented big-endian layout
-TRefImage == IsEvent("RefImage") /\ LET e == Log[l]  s == e.src
-                                        o == [Fresh(s.k, e.r.cap) EXCEPT !.cent = s.cent, !.total = SumW(s.cent),
-                                                 !.minD = s.min, !.maxD = s.max,
-                                                 !.g = [cnt |-> SumW(s.cent), lo |-> s.min, hi |-> s.max]] IN
-            /\ Chk("C09:ref-image", /\ e.r.k = s.k /\ e.r.total = o.total /\ e.r.min = s.min /\ e.r.max = s.max
-                                    /\ e.r.cent = s.cent /\ e.r.buf = <<>> /\ ~e.r.empty)
+TRefImage == IsEvent("RefImage") /\ LET e == Log[l]  s == e.src  tw == SumW(s.cent)
+                                        o == IF tw = 0 THEN Fresh(s.k, e.r.cap)      \* an empty digest
+                                             ELSE [Fresh(s.k, e.r.cap) EXCEPT !.cent = s.cent, !.total = tw,
+                                                     !.minD = s.min, !.maxD = s.max,
+                                                     !.g = [cnt |-> tw, lo |-> s.min, hi |-> s.max]] IN
+            /\ Chk("C09:ref-image", /\ e.r.k = s.k /\ e.r.total = tw /\ e.r.cent = s.cent /\ e.r.buf = <<>>
+                                    /\ e.r.empty = (tw = 0)
+                                    /\ (tw > 0 => e.r.min = s.min /\ e.r.max = s.max))
             /\ Chk("C09:ref-consumed", e.consumed = e.size)
             /\ obj' = (e.dst :> o) @@ obj
             /\ UNCHANGED <<blob, cst, stat>>
